@@ -199,8 +199,28 @@ def model_behaviour(h, cases, parsed, idx, state, tag):
             continue
         exprs.append("(emit_behaviour %s %s %s] %s [%s])" % (b(state["nan"]), b(state["do"]), st, val, "; ".join(calls)))
         keep.append(i)
-    outs = c.coq_eval_batch(REQ, "", exprs, tag, shard=60)
-    return dict(zip(keep, outs))
+    # in chunks, so that one failing shard (resource exhaustion in coqc) is located and reported,
+    # not the whole sample lost
+    res, failed = {}, []
+    CH = 240
+    for k in range(0, len(exprs), CH):
+        try:
+            outs = c.coq_eval_batch(REQ, "", exprs[k:k + CH], tag, shard=15)
+            res.update(zip(keep[k:k + CH], outs))
+        except c.BrokenTie as e:
+            failed.append((k, e.detail[-300:]))
+            for k2 in range(k, min(k + CH, len(exprs)), 15):
+                try:
+                    outs = c.coq_eval_batch(REQ, "", exprs[k2:k2 + 15], tag, shard=15)
+                    res.update(zip(keep[k2:k2 + 15], outs))
+                except c.BrokenTie as e2:
+                    for k3 in range(k2, min(k2 + 15, len(exprs))):
+                        try:
+                            outs = c.coq_eval_batch(REQ, "", exprs[k3:k3 + 1], tag, shard=1)
+                            res.update(zip(keep[k3:k3 + 1], outs))
+                        except c.BrokenTie as e3:
+                            res[keep[k3]] = "EVALFAIL " + e3.detail[-200:].replace("\n", " ")
+    return res
 
 
 def b(x):
@@ -439,10 +459,14 @@ def main(argv):
         cand = sorted(rng.shuffle(cand)[:n_beh])
     beh_agree = beh_skip = 0
     beh_mism = []
+    beh_fail = []
     try:
         mb = model_behaviour(h, cases, parsed, cand, {"nan": nanfix, "do": dofix}, "c05b")
         for i, out in mb.items():
             if out is None:
+                continue
+            if out.startswith("EVALFAIL"):
+                beh_fail.append((cases[i][1], out))
                 continue
             pairs = out.split(" ")
             for (a, r, m) in zip(cases[i][2], parsed[i]["R"], pairs):
@@ -455,6 +479,11 @@ def main(argv):
                     beh_mism.append((cases[i][1], a, "/".join(r[:2]), m))
     except c.BrokenTie as e:
         res.tie_broken(e.what, e.detail)
+    # coqc cannot run the model on a few inputs (Eval.index_from converts a huge index to a unary nat);
+    # they are counted; more than 1% of the sample is a broken tie
+    if len(beh_fail) * 100 > max(1, len(cand)):
+        res.tie_broken("model evaluation (coqc vm_compute) failed on %d functions of the behaviour sample" % len(beh_fail),
+                       "first: %r\n%s" % beh_fail[0])
     if beh_mism:
         res.tie_broken("correspondence C05/EMIT-behaviour: model and implementation disagree on %d calls" % len(beh_mism),
                        "first: %r args %r\nimpl : %s\nmodel: %s" % beh_mism[0])
@@ -486,7 +515,7 @@ def main(argv):
     res.streams["EMIT"] = dict(stats, repo_state=state, model_variant="nanfix=%s dofix=%s" % (nanfix, dofix),
                                pool=len(POOL), small_shapes=len(small_bodies()),
                                behaviour_model_agree=beh_agree, behaviour_model_skipped_unmodelled=beh_skip,
-                               behaviour_model_mismatch=len(beh_mism), cli_chains=len(pick), cli_chains_ok=chain_ok,
+                               behaviour_model_mismatch=len(beh_mism), behaviour_model_eval_failed=len(beh_fail), cli_chains=len(pick), cli_chains_ok=chain_ok,
                                cli_chains_in_known_class=chain_exc)
     res.coverage["evaluations"] = stats["law_checked"] * 3 + len(cases)
     res.coverage["distinct_nontrivial"] = len(nontrivial)
